@@ -45,6 +45,20 @@ impl RecStore {
     }
 }
 
+/// Stand-ins for the two large event enums (`libp2p_swarm::ToSwarm`, `kad::Event`),
+/// with exactly the variants the three fragments construct, same names and field
+/// names (they shadow the glob-imported real types inside this module only).  The
+/// real enums made every harness spend 150-300 s in symbolic execution on moving
+/// one event value; the payload types (`InboundRequest`, `ProviderRecord`, `HandlerIn`,
+/// `NotifyHandler`) are the real ones.
+pub(crate) enum ToSwarm<A, B> {
+    GenerateEvent(A),
+    NotifyHandler { peer_id: PeerId, handler: NotifyHandler, event: B },
+}
+pub(crate) enum Event {
+    InboundRequest { request: InboundRequest },
+}
+
 /// recording stand-in for `queued_events`
 pub(crate) struct EvQ {
     pushed: u8,
